@@ -7,10 +7,27 @@ NOTE = ("Trusted: our AST->VC symbolic executor and its models of the Python bui
         "cross-checked against CPython on every run, refutations replayed on the real code), z3/cvc5, the "
         "specification library transcribed from the standards (A5), floats as reals (A2) where stated.")
 
+TECH = "contract-based deductive verification: sidecar contracts, VCs generated from the real source text by symbolic execution of the AST, discharged by %s; refutations replayed natively"
+
 CHECKS = {
- "C07": dict(cat="proof", tech="contract-based deductive verification: AST-generated VCs over the real source text, z3 (bit-level/LIA), native replay",
-      text="Every function between the property and the bits (gray2int, gray2alt, altitude, altcode, bds05.altitude, adsb.altitude, surv.altitude) has a functional contract taken from Annex 10 (spec/alt_spec.py); each body is symbolically executed from /repo's current text with callees replaced by their contracts and the resulting VCs are discharged by z3 for all 8192/4096 codes and all other frame bits at once; the float truncation int(N*3.28084) has a robustness side-obligation.",
+ "C01": dict(cat="proof", tech=TECH % "GF(2)-affine normal forms (crc == polynomial remainder, closure, linearity), z3, exhaustive table evaluation (syndrome combinatorics)",
+      text="crc (both lengths, both modes) is proved equal to the textbook bit-serial remainder for all 2^56+2^112 frames by comparing GF(2)-affine normal forms of the 24 result bits generated from the real loop nest; encode-independence, parity closure and linearity are lemmas over that contract; weight<=5 / burst<=24 detection reduces by linearity to a finite fact about the 56/112 syndromes, evaluated exhaustively; _check_msg is proved against its admission rule. crc_legacy (numpy) is only checked bounded.",
+      ref="DESIGN.md section 5 C01"),
+ "C02": dict(cat="proof", tech=TECH % "GF(2)-affine normal forms + z3",
+      text="icao body proved against the Annex 10 contract (AA upper-case for DF11/17/18, parity xor AP for DF0/4/5/16/20/21, None otherwise) for every frame and every letter-case assignment; transponder-side round trips for all 2^24 addresses and payloads; adsb.icao / allcall.icao wrappers.",
+      ref="DESIGN.md section 5 C02"),
+ "C07": dict(cat="proof", tech=TECH % "z3 (bit level / linear integer arithmetic)",
+      text="Every function between the property and the bits (gray2int, gray2alt, altitude, altcode, bds05.altitude, adsb.altitude, surv.altitude) has a functional contract taken from Annex 10 (spec/alt_spec.py); each body is symbolically executed from /repo's current text with callees replaced by their contracts and the VCs are discharged for all 8192/4096 codes and all other frame bits at once; int(N*3.28084) has a robustness side-obligation.",
       ref="DESIGN.md section 5 C07"),
+ "C08": dict(cat="proof", tech=TECH % "z3 + GF(2)-affine forms (DF11 parity overlay)",
+      text="squawk/idcode, surv.fs/dr/um/identity, allcall.capability/interrogator and the TC28 squawk are proved field by field against Annex 10 positions for all frames; the interrogator code is proved for every frame written as data||parity(data) xor r.",
+      ref="DESIGN.md section 5 C08"),
+ "C10": dict(cat="proof", tech=TECH % "z3",
+      text="callsign/category/cs20 bodies proved against the six-bit character table for every frame; round trip for all 37^8 legal identifications (symbolic codes) position by position.",
+      ref="DESIGN.md section 5 C10"),
+ "C11": dict(cat="proof", tech=TECH % "z3 (linear integer/real arithmetic over symbolic frame bits)",
+      text="Each of the 29 scalar field decoders plus wind44/temp44/ovc10 is proved against the Doc 9871 layout table (status, sign, msb, lsb, LSB, offset, wrap) for every 112-bit frame; cap17 deductively for all patterns with <=2 capability bits and bounded otherwise (2^24 list shapes); re-export identity by table evaluation. Known finding F14 (vr53 special case) is excluded by its region predicate.",
+      ref="DESIGN.md section 5 C11"),
 }
 
 NA = {}
